@@ -214,6 +214,11 @@ func vh_C11_Handlers() {
 		}
 	}
 	me := vfGoroutineID()
+	// a Subscription without OnNext runs nothing, whatever handlers are set
+	vfNoPanic("nopanic-no-onnext", func() { m.Subscribe(Subscription[int]{}) })
+	vfQuiesce()
+	vfAssert("no-onnext-runs-nothing", effects == 0)
+	effects = 0
 	var got int
 	vfNoPanic("nopanic", func() {
 		m.Subscribe(Subscription[int]{OnNext: func(v int) { onNext++; nextOn = vfGoroutineID(); got = v }})
